@@ -565,8 +565,8 @@ def r4c_throttling_is_not_an_auth_fault(ctx):
     n = 0
     for f in m.all_functions:
         raises = [r for r in walk_local(f.node) if isinstance(r, ast.Raise) and r.exc is not None and (dotted(r.exc.func if isinstance(r.exc, ast.Call) else r.exc) or '').rsplit('.', 1)[-1] == 'AuthRequired']
-        if not raises or 'details' not in [a.arg for a in f.node.args.args]:
-            continue
+        if not raises or not any((dotted(c.func) or '') == 'sys.exc_info' for c in calls_in(f.node)):
+            continue  # the retry callbacks are the functions that look at the exception being handled by backoff
         ctx.analysed(f)
         for r in raises:
             n += 1
